@@ -84,6 +84,12 @@ func (c *Calcium) doCreateWorkloads(ctx context.Context, opts *types.DeployOptio
 		defer func() {
 			for nodename := range processingCommits {
 				if commit, ok := processingCommits[nodename]; ok {
+					// the marker must be gone before its WAL entry is dropped: after a crash in
+					// between nothing would ever remove it
+					if err := c.store.DeleteProcessing(utils.NewInheritCtx(ctx), opts.GetProcessing(nodename)); err != nil {
+						logger.Errorf(ctx, err, "delete processing failed for %s, keep its wal entry", nodename)
+						continue
+					}
 					if err := commit(); err != nil {
 						logger.Errorf(ctx, err, "commit wal failed: %s, %s", eventProcessingCreated, nodename)
 					}
